@@ -36,10 +36,78 @@ def conversion_rule(rep, f):
     rep.floor("C08.c", n, 10)
 
 
+CHAIN_STEP = ("::getBaseComplexTypeInfo", "::getBaseValidator")
+CHAIN_PROPS = ("::getDerivedBy",)
+
+
+def chain_walk_rule(rep, f):
+    import re
+    rep.rule("C08.d", "a walk up a type's derivation chain looks at the step it is standing on: in every loop that advances a local "
+             "through getBaseComplexTypeInfo()/getBaseValidator() (xsi:type blocking, substitution-group blocking, restriction "
+             "checks), the derivation method consulted inside the loop is that local's — read from any other object the loop tests "
+             "the same step over and over, and a block/final constraint on an intermediate derivation step is not enforced")
+    have = {}
+    for x in f.kind("call"):
+        nm = x["x"][1]
+        if isinstance(nm, str) and "/validators/schema/" in x["_fn"]["file"]:
+            if nm.endswith(CHAIN_PROPS):
+                have.setdefault(x["_fn"]["q"], set()).add("prop")
+            elif nm.endswith(CHAIN_STEP):
+                have.setdefault(x["_fn"]["q"], set()).add("step")
+            have.setdefault(x["_fn"]["q"], set()).add("file:" + x["_fn"]["file"])
+    fns = {q: [v[5:] for v in vs if v.startswith("file:")][0] for q, vs in have.items() if {"prop", "step"} <= vs}
+    byfile = {}
+    for q, fl in fns.items():
+        byfile.setdefault(fl, []).append(q)
+    trees = {}
+    for fl, qs in sorted(byfile.items()):
+        g = core.run_xa([os.path.join(core.REPO, fl)], st="^(" + "|".join(re.escape(q) for q in sorted(qs)) + ")$", flat=False)
+        for q in qs:
+            trees[q] = g.st(q)["body"]
+    n = 0
+    for q, fl in sorted(fns.items()):
+        body = trees[q]
+        loops = []
+
+        def find(nd):
+            if isinstance(nd, list):
+                if nd and nd[0] in ("while", "for"):
+                    loops.append(nd)
+                for k in nd:
+                    find(k)
+        find(body)
+        for lp in loops:
+            steps, reads = set(), []
+
+            def scan(nd):
+                if isinstance(nd, list):
+                    if len(nd) == 4 and nd[0] == "b" and nd[1] == "=" and isinstance(nd[2], list) and nd[2][:1] == ["l"] and \
+                            isinstance(nd[3], list) and nd[3][:1] == ["c"] and isinstance(nd[3][1], str) and nd[3][1].endswith(CHAIN_STEP) and nd[3][2] == nd[2]:
+                        steps.add(nd[2][1])
+                    if nd[:1] == ["c"] and isinstance(nd[1], str) and nd[1].endswith(CHAIN_PROPS):
+                        reads.append(nd)
+                    for k in nd:
+                        scan(k)
+            scan(lp)
+            if not steps or not reads:
+                continue
+            line = lp[-1] if isinstance(lp[-1], int) else 0
+            for r in reads:
+                n += 1
+                recv = r[2]
+                ok = isinstance(recv, list) and recv[:1] == ["l"] and recv[1] in steps
+                rep.ob("C08.d", "%s@loop:%s/%s" % (q, line, r[1].split("::")[-1]), ok, "reads the current step (%s)" % sorted(steps)[0] if ok else
+                       "%s: the loop at line %s walks %s up the derivation chain but takes %s from %s — every iteration examines the "
+                       "same derivation step" % (q, line, sorted(steps)[0], r[1].split("::")[-1], core.sx_str(recv) if recv else "?"),
+                       "%s:%s" % (fl, line))
+    rep.floor("C08.d", n, 3)
+
+
 def run(rep):
     f = core.library_facts()
     rep.units.update(os.path.relpath(t, core.REPO) for t in f.tus)
     conversion_rule(rep, f)
+    chain_walk_rule(rep, f)
     diag.run(rep, f, "C08")
     dispatch.run(rep, f, "C08")
     rep.undecided += ["acceptance of exactly the schema-valid instances: occurrence counting, wildcard namespace algebra, substitution groups, "
